@@ -1,7 +1,7 @@
 """Property -> rules.  The explanation/assumption texts end up in the evidence files."""
 from .rules import dtype, evalnodes, executor, aggregates, eqfaith, compiler_rules as cr
 from .rules import cursor_rules as cu, library_rules as lib, state_rules as st, grammar_rules as gr
-from .rules import table_rules as tb, clause_rules as cl, sx_exec as sx, sx_cursor as sxc, sx_compiler as sxk, sx_select as sxs, sx_pivot as sxp, sx_tables as sxt, sx_numberify as sxn, sx_state as sxst
+from .rules import table_rules as tb, clause_rules as cl, sx_exec as sx, sx_cursor as sxc, sx_compiler as sxk, sx_select as sxs, sx_pivot as sxp, sx_tables as sxt, sx_numberify as sxn, sx_state as sxst, sx_types as sxty, sx_library as sxl, sx_datebin as sxdb
 
 TRUSTED_ABSINT = [
     "Python/library semantics of operators, attributes, methods and whitelisted callables are obtained by applying "
@@ -88,10 +88,10 @@ PROPS = {
             "type (R-COALESCE, 36 type pairs executed); untyped operands are cast to the other side's type, decimal for "
             "int (R-IMPLICITCAST); in the thorough tier every overload is also run for the subclass operands that the "
             "MRO lookup admits (R-ADMITTED). Decides type conformance of declarations vs. implementations for all overloads; "
-            "does not decide values of dtype `object` nor conformance of ledger data to beancount's annotations."),
+            "does not decide values of dtype `object` nor conformance of ledger data to beancount's annotations. Also: the overload-resolution primitives of types.py (Any equals every class and not the `*` pseudo-type, the strict linearisation, first overload along it) behave as the registry model assumes (R-LOOKUP, 13 cases on terms), and every output column of both scan branches holds the value of its own target (R-ROWLOOP, R-AGGPROTO key layout)."),
         'assumptions': TRUSTED_ABSINT,
         'quick': [dtype.rule_dtype, dtype.rule_typesafe, dtype.rule_renderable, cr.rule_opresolve, sxk.rule_coalesce,
-                  sxk.rule_implicitcast],
+                  sxk.rule_implicitcast, sxty.rule_lookup, sxs.rule_aggproto, sx.rule_rowloop],
         'thorough': [dtype.rule_admitted],
     },
     'C05': {
@@ -108,11 +108,11 @@ PROPS = {
             "grammar rule (R-PARTIAL); compile-time constant folding protected (R-FOLDSAFE); AST classes <-> compiler "
             "handlers <-> shell handlers exhaustive (R-EXHAUSTIVE); DB-API exception tree (R-EXCTREE); structural "
             "equality faithful (R-EQFAITH). Does not decide acceptance of every well-formed statement nor validity "
-            "of parse positions produced by TatSu at run time."),
+            "of parse positions produced by TatSu at run time. Also on terms: the 11 combinations of placeholder kinds and parameter kinds give the stated outcome (R-PLACEHOLDER), the 33 FROM clause combinations (R-FROMCLAUSE), IN / NOT IN operands (R-INOP), the resolution primitives (R-LOOKUP)."),
         'assumptions': TRUSTED_STRUCT + TRUSTED_ABSINT[:1],
         'quick': [cr.rule_raise, cr.rule_guards, cr.rule_targetchk, cr.rule_guard_typesafe, sxk.rule_idxbound,
                   cr.rule_opresolve, cr.rule_partial, cr.rule_foldsafe, cr.rule_exhaustive, cr.rule_exctree,
-                  eqfaith.rule_eqfaith, sxk.rule_coalesce, sxk.rule_implicitcast, sxst.rule_placeholder, sxk.rule_fromclause, sxk.rule_inop],
+                  eqfaith.rule_eqfaith, sxk.rule_coalesce, sxk.rule_implicitcast, sxst.rule_placeholder, sxk.rule_fromclause, sxk.rule_inop, sxty.rule_lookup],
         'thorough': [sxk.rule_idxbound_deep],
     },
     'C06': {
@@ -160,7 +160,7 @@ PROPS = {
             "among the visible inner targets, read row[i], carry the inner dtype and the rows come from executing "
             "that very subquery (R-VISFILTER); two different IN-subqueries do not compare equal (R-EQFAITH); the "
             "single-column guard exists (R-GUARDS) and the IN node is NULL-propagating (R-NULLSTRICT). Does not decide "
-            "equality of nested and materialised results in general."),
+            "equality of nested and materialised results in general. IN / NOT IN hand the compiled operands on unmodified, wrap a one-column subquery as a constant list and reject wider ones (R-INOP)."),
         'assumptions': TRUSTED_STRUCT,
         'quick': [sxst.rule_reentrant, cr.rule_visfilter, eqfaith.rule_eqfaith, cr.rule_guards, evalnodes.rule_nullstrict,
                   sx.rule_subq1d, sxk.rule_inop],
@@ -231,19 +231,24 @@ PROPS = {
     'C18': {
         'level': 'other',
         'explanation': (
-            "Decides three structural clauses: (1) type casts (bool, int, decimal, str, date; 16 overloads) return the "
+            "Decides four clauses: (1) type casts (bool, int, decimal, str, date; 16 overloads) return the "
             "converted value or NULL and never raise - abstract interpretation of each cast body for every operand type "
             "it admits (untyped operands range over all announceable dtypes), with edge samples (NaN, Infinity, huge "
             "ints, malformed strings) for the conversion primitives; every exception a primitive can raise must be "
             "caught by the enclosing try (R-CASTTOTAL); (2) sibling agreement of the calendar cuts: date_trunc, date_part "
             "and quarter() use the same (attribute, offset, period) for each unit (R-CALSIB); (3) the 26 functions that "
-            "the statement defines by a Python primitive (upper, substr, splitcomp, date_diff, root, ...) are, after "
-            "inlining locals, exactly that primitive applied to their arguments in order (R-DEFN; bodies that are not "
-            "straight-line are not judged). NOT decided (equalities over run-time values, outside static reach): the "
-            "calendar laws themselves (monotonicity, idempotence, inverse pairs, date_bin alignment), regex results, "
-            "decimal arithmetic; an off-by-one applied consistently to all siblings has the same shape as the correct code."),
+            "the statement defines by a Python primitive (upper, substr, splitcomp, date_diff, root, ...) return, on every "
+            "path of their body (helpers inlined), the term of that primitive applied to their arguments in order "
+            "(R-DEFN, term interpretation); (4) date_bin returns the start of the bin containing the source: for month / "
+            "year strides the comparisons along every path of the search loops entail result <= source < result + stride "
+            "(order entailment over the path's comparisons, loops unrolled three times, positive stride assumed as the "
+            "function's own guard does); for day strides the arithmetic is interpreted exactly over linear forms in "
+            "D = source - origin, S and S*floor(D/S) in the five sign / divisibility cases of D and the offset must be "
+            "S*floor(D/S) in each (R-BINFLOOR). NOT decided (equalities over run-time values, outside static reach): the "
+            "other calendar laws (monotonicity, idempotence, inverse pairs), regex results, decimal arithmetic; an "
+            "off-by-one applied consistently to all siblings has the same shape as the correct code."),
         'assumptions': TRUSTED_ABSINT[:1],
-        'quick': [lib.rule_casttotal, lib.rule_calsib, lib.rule_defn],
+        'quick': [lib.rule_casttotal, lib.rule_calsib, sxl.rule_defn, sxdb.rule_binfloor],
         'thorough': [],
     },
     'C20': {
@@ -279,10 +284,10 @@ PROPS = {
             "record field, all tables registered, structure aliases consistent (R-TABLEFIELDS); meta()/entry_meta()/"
             "any_meta() rewritten to the right dictionary lookups, open/close selection from the (open, close) pair "
             "(R-METAREWRITE); getitem NULL-propagating (R-NULLSTRICT). Does not decide that beancount's getters and "
-            "convert functions compute what their names say."),
+            "convert functions compute what their names say. FROM qualifiers are applied to a copy of the connection's table, so the rows of a statement come from its own clauses only (R-TABLECOPY); getitem on a NULL container gives NULL with or without a default."),
         'assumptions': TRUSTED_STRUCT + TRUSTED_ABSINT[:2],
         'quick': [tb.rule_accesspath, sxt.rule_rowgen, tb.rule_tablefields, tb.rule_metarewrite, dtype.rule_dtype_columns,
-                  dtype.rule_typesafe_columns],
+                  dtype.rule_typesafe_columns, sxst.rule_tablecopy],
         'thorough': [],
     },
     'C13': {
@@ -296,10 +301,10 @@ PROPS = {
             "(R-GUARDS, R-GUARDSAFE); qualifiers are applied to a copy of the table (R-TABLECOPY); the shell's default "
             "close date is applied exactly to SELECTs with a FROM expression lacking CLOSE (R-DEFAULTCLOSE, 12 cases). NOT "
             "decided: balance preservation, carried-forward Equity postings, balancing of returned transactions - "
-            "properties of beancount.ops.summarize over ledger values."),
+            "properties of beancount.ops.summarize over ledger values. Compiler state is restored around every nested SELECT for every kind of FROM clause and on exceptional exits (R-REENTRANT); PRINT takes its directives from iterating the table, which is what applies the clauses (R-PRINTFILTER); the 33 combinations of FROM expression / OPEN / CLOSE / date order in _compile_from accept or reject as stated and update the table with exactly the clause values (R-FROMCLAUSE)."),
         'assumptions': TRUSTED_STRUCT,
         'quick': [cl.rule_callorder, executor.rule_fromand, sxk.rule_fromclause, cr.rule_guards, cr.rule_guard_typesafe, sxst.rule_tablecopy,
-                  cl.rule_defaultclose],
+                  cl.rule_defaultclose, sxst.rule_reentrant, sx.rule_printfilter],
         'thorough': [],
     },
     'C14': {
@@ -312,9 +317,9 @@ PROPS = {
             "(R-EXHAUSTIVE); PRINT collects row.entry for exactly the rows whose filter is absent or true, in order, and "
             "hands the list unmodified to the printer (R-PRINTFILTER, 4 gate cases). The SELECT templates themselves are "
             "string constants and deliberately not matched (a frozen fragment). NOT decided: that printed entries load "
-            "back equal (beancount's printer and parser)."),
+            "back equal (beancount's printer and parser). The running balance and every other piece of state the expansions touch is private to one execution (R-SHARED), and the FROM qualifiers of all three statements are applied in the fixed order (R-CALLORDER)."),
         'assumptions': TRUSTED_STRUCT,
-        'quick': [cl.rule_fieldflow, cr.rule_exhaustive, sx.rule_printfilter],
+        'quick': [cl.rule_fieldflow, cr.rule_exhaustive, sx.rule_printfilter, st.rule_shared, cl.rule_callorder],
         'thorough': [],
     },
     'C15': {
@@ -342,7 +347,7 @@ PROPS = {
             "dot-commands never reach execute(), other lines do unless legacy, legacy names disjoint from statement "
             "keywords (R-DISPATCH); default close date for named queries (R-DEFAULTCLOSE); statement handlers exhaustive "
             "(R-EXHAUSTIVE). Does not decide byte equality of shell output with the renderer (the same function is "
-            "called), pager behaviour or history."),
+            "called), pager behaviour or history. _parse_format returns the very value whose membership in FORMATS it tested; parse() builds a new tree per call (R-PARSEFRESH): the shell writes the default CLOSE date into the tree it parsed."),
         'assumptions': TRUSTED_STRUCT,
         'quick': [cl.rule_settings, cl.rule_optused, cl.rule_dispatch, cl.rule_defaultclose, cr.rule_exhaustive, st.rule_parsefresh],
         'thorough': [],
